@@ -31,7 +31,9 @@
  * C01  bytes are reported as application data (SSL_PROCESS_DATA -> MATRIXSSL_APP_DATA) only if
  *      this very record was opened under the active read keys AND the handshake is complete,
  *      or the session is a server in the early-data window (WAIT_EOED).
- * C02  a record that fails to open never yields data (TLS: fatal alert).
+ * C02  the bytes handed to the application are exactly the plaintext of the record that was opened
+ *      (ghost index k; the decrypt model is the identity, so plaintext = wire bytes of that record);
+ *      a record that fails to open never yields data (TLS: fatal alert).
  * C15  every way of failing kills the session: an alert handed out for sending leaves
  *      SSL_FLAGS_ERROR set, a received alert sets CLOSED or ERROR, no error path reports
  *      success (the only tolerated undecryptable records: early data being rejected by a
@@ -48,6 +50,7 @@
     P(C01_app_data_leaves_state_alone,         IMPLIES(RET == SSL_PROCESS_DATA, g_ssl.hsState == gh_hsstate_at_entry && gh_hs_calls == 0)) \
     P(C01_app_data_length_within_limit,        IMPLIES(RET == SSL_PROCESS_DATA, g_len <= 16384 && g_len <= g_size)) \
     P(C01_app_data_lies_in_receive_buffer,     IMPLIES(RET == SSL_PROCESS_DATA, IN_BUF(g_in.len))) \
+    P(C02_delivered_bytes_are_the_opened_record, IMPLIES(RET == SSL_PROCESS_DATA && g_in.k < g_len, g_buf[g_in.k] == g_in.buf[(gh_dec_off + g_in.k) % BUFN] && gh_dec_off + g_len <= BUFN)) \
     P(C02_decrypt_failure_never_yields_data,   IMPLIES(gh_dec_failed, RET != SSL_PROCESS_DATA && RET != SSL_ALERT && gh_hs_calls == 0)) \
     P(C02_decrypt_failure_is_fatal_unless_early_data_skip, IMPLIES(gh_dec_failed && !EARLY_SKIP_OK, (g_ssl.err == SSL_ALERT_BAD_RECORD_MAC && gh_alert_encoded == 1 && (g_ssl.flags & SSL_FLAGS_ERROR) != 0) || RET == SSL_FULL)) \
     P(C15_alert_sent_marks_session_failed,     IMPLIES(gh_alert_encoded > 0, (g_ssl.flags & SSL_FLAGS_ERROR) != 0)) \
